@@ -20,15 +20,15 @@ SCENE = """<mujoco>
     <camera name="c0" pos="0 -2 1" mode="track"/>
     <body name="box" pos="0 0 0.098" gravcomp="0.2">
       <freejoint/>
-      <geom name="gbox" type="box" size="0.1 0.1 0.1" mass="1" friction="0.9 0.02 0.002" margin="0.003" gap="0.001" solref="0.015 1.1" solimp="0.85 0.96 0.002 0.5 2"/>
+      <geom name="gbox" type="box" size="0.1 0.1 0.1" mass="1" friction="0.9 0.02 0.002" margin="0.003" gap="0.001" solref="0.015 1.1" solimp="0.5 0.55 0.1 0.5 2"/>
       <site name="sb" pos="0.05 0 0.1"/>
     </body>
     <body name="arm" pos="1 0 0.6">
-      <joint name="h" type="hinge" axis="0 1 0" damping="0.2 0.05" stiffness="2 0.5 0.1" armature="0.05" frictionloss="0.1" limited="true" range="-0.4 0.4" margin="0.01"
-             solreflimit="0.03 1" solimplimit="0.9 0.95 0.001 0.5 2" springref="0.1" actuatorfrclimited="true" actuatorfrcrange="-3 3"/>
+      <joint name="h" type="hinge" axis="0 1 0" damping="0.2 0.05" stiffness="2 0.5 0.1" armature="0.05" frictionloss="0.1" solimpfriction="0.5 0.55 0.1 0.5 2" limited="true" range="0.05 0.4" margin="0.01"
+             solreflimit="0.03 1" solimplimit="0.5 0.55 0.1 0.5 2" springref="0.1" actuatorfrclimited="true" actuatorfrcrange="-3 3"/>
       <geom name="garm" type="capsule" fromto="0 0 0 0.3 0 0" size="0.03" mass="0.5"/>
       <site name="sa" pos="0.4 0 0"/>
-      <camera name="c1" pos="0.1 0 0.1"/>
+      <camera name="c1" pos="0.1 0 0.1"/><camera name="c2" pos="0.3 -0.5 0.4" mode="trackcom"/>
       <body name="fore" pos="0.4 0 0">
         <joint name="h2" type="slide" axis="0 0 1" damping="0.1" limited="true" range="-0.05 0.05"/>
         <geom name="gfore" type="ellipsoid" size="0.05 0.03 0.04" mass="0.3" fluidshape="ellipsoid"/>
@@ -37,26 +37,35 @@ SCENE = """<mujoco>
       </body>
     </body>
     <body name="ball" pos="-0.6 0 0.5"><joint name="b" type="ball" damping="0.05"/><geom name="gball" type="sphere" size="0.07" pos="0.1 0 0" mass="0.4"/><site name="sball" pos="0.1 0 0"/></body>
+    <body name="box2" pos="0 1 0.0533" gravcomp="1"><freejoint/><geom name="gbox2" type="box" size="0.05 0.05 0.05" mass="0.3" contype="0" conaffinity="0"/></body>
+    <body name="box3" pos="0 2 0.05465" gravcomp="1"><freejoint/><geom name="gbox3" type="box" size="0.05 0.05 0.05" mass="0.3" contype="0" conaffinity="0"/></body>
+    <body name="hover" pos="1 1 0.05625" gravcomp="1"><freejoint/><geom name="ghover" type="sphere" size="0.05" mass="0.2" margin="0.003" gap="0.001" solmix="2" solimp="0.8 0.9 0.003 0.4 2"/></body>
+    <body name="off" pos="-1 1 0.3"><joint name="ho" type="hinge" axis="0 1 0" pos="0.02 0 0.05" damping="0.05"/><geom name="goff" type="capsule" size="0.03 0.1" pos="0.05 0 -0.16" euler="0 20 0" mass="0.3"/></body>
     <body name="mc" mocap="true" pos="-0.6 0 0.9"><geom type="sphere" size="0.02" contype="0" conaffinity="0"/></body>
   </worldbody>
   <tendon>
-    <spatial name="ts" stiffness="5" damping="0.3" limited="true" range="0 0.8" frictionloss="0.05" margin="0.01" springlength="0.3" armature="0.01"><site site="sa"/><site site="sf"/></spatial>
+    <spatial name="ts" stiffness="5" damping="0.3" limited="true" range="0.1 0.8" frictionloss="0.05" margin="0.01" springlength="0.3" armature="0.01" solreflimit="0.03 1"
+             solimplimit="0.5 0.55 0.1 0.5 2" solimpfriction="0.5 0.55 0.1 0.5 2" actuatorfrclimited="true" actuatorfrcrange="-0.1 0.1"><site site="sa"/><site site="sf"/></spatial>
     <fixed name="tf" stiffness="1"><joint joint="h" coef="1"/><joint joint="h2" coef="-2"/></fixed>
-    <fixed name="tg" stiffness="0.5" damping="0.05"><joint joint="h2" coef="1.5"/></fixed>
+    <fixed name="tg" stiffness="0.5 0.2 0.1" damping="0.05 0.02 0.01"><joint joint="h2" coef="1.5"/></fixed>
   </tendon>
-  <equality><connect body1="ball" body2="mc" anchor="0.1 0 0.2" solref="0.03 1"/><joint joint1="h" joint2="h2" polycoef="0 0.1 0 0 0" solref="0.04 1"/></equality>
+  <contact><pair geom1="floor" geom2="gbox2" condim="4" friction="0.7 0.6 0.02 0.001 0.001" margin="0.004" gap="0.0005" solref="0.02 1.1" solimp="0.5 0.55 0.1 0.5 2" solreffriction="0.03 1"/>
+    <pair geom1="floor" geom2="gbox3" condim="3" margin="0.004" gap="0.0005"/></contact>
+  <equality><connect body1="ball" body2="mc" anchor="0.1 0 0.2" solref="0.03 1" solimp="0.5 0.55 0.1 0.5 2"/><joint joint1="h" joint2="h2" polycoef="0 0.1 0 0 0" solref="0.04 1" solimp="0.5 0.55 0.1 0.5 2"/></equality>
   <actuator>
     <position name="ap" joint="h" kp="8" kv="0.5" ctrlrange="-1 1" forcerange="-4 4"/>
     <general name="af" joint="h2" dyntype="filter" dynprm="0.05" gainprm="2" biastype="affine" biasprm="0.1 -1 -0.2" actlimited="true" actrange="-1 1"/>
     <motor name="at" tendon="ts" gear="0.5"/>
+    <position name="ap2" joint="ho" kp="1" ctrlrange="-0.3 0.3"/>
     <muscle name="am" tendon="tf" lengthrange="-0.5 0.5"/>
   </actuator>
   <sensor><jointpos joint="h"/><framepos objtype="site" objname="sf"/><tendonpos tendon="ts"/><actuatorfrc actuator="ap"/><accelerometer site="sball"/><framequat objtype="camera" objname="c0"/>
-    <framepos objtype="camera" objname="c1" reftype="body" refname="box"/></sensor>
+    <framepos objtype="camera" objname="c1" reftype="body" refname="box"/><magnetometer site="sball"/><framepos objtype="geom" objname="goff"/><framepos objtype="camera" objname="c2"/></sensor>
 </mujoco>"""
 
 SKIP_PREFIX = ("mat_", "light_", "cam_fovy", "cam_intrinsic", "geom_rgba", "geom_matid", "geom_dataid", "cam_res", "flex", "hfield", "mesh", "oct", "tex", "plugin")
-OBS = ["qpos", "qvel", "act", "qacc", "sensordata", "energy", "xpos", "cam_xpos", "light_xpos", "actuator_force", "qfrc_passive", "nefc", "nacon"]
+OBS = ["qpos", "qvel", "act", "qacc", "sensordata", "energy", "xpos", "cam_xpos", "cam_xmat", "light_xpos", "actuator_force", "qfrc_passive", "qfrc_actuator", "qfrc_constraint", "geom_xpos", "site_xpos",
+       "ten_length", "subtree_com", "nefc", "nacon"]
 
 
 def batched_fields():
@@ -92,16 +101,22 @@ def _field_chunk(args):
   mjm = mujoco.MjModel.from_xml_string(SCENE)
   out = []
   rng = np.random.default_rng(seed)
-  ctrl = np.array([0.3, -0.5, 0.4, 0.6], dtype=np.float32)
+  ctrl = np.array([1.3, 5.0, 0.4, 0.9, 0.6], dtype=np.float32)  # beyond ctrlrange; drives the filter activation past actrange; force beyond forcerange / actuatorfrcrange
   qv = rng.uniform(-0.5, 0.5, size=mjm.nv).astype(np.float32)
+  for bn in ("box2", "box3", "hover"):  # the two bodies that hover inside a contact margin stay where they are
+    bid = mujoco.mj_name2id(mjm, mujoco.mjtObj.mjOBJ_BODY, bn)
+    qv[mjm.body_dofadr[bid] : mjm.body_dofadr[bid] + 6] = 0.0
 
   def simulate(m, nworld, nsteps=2):
     d = mjw.make_data(mjm, nworld=nworld)
     wp.copy(d.ctrl, wp.array(np.tile(ctrl, (nworld, 1)), dtype=float))
     wp.copy(d.qvel, wp.array(np.tile(qv, (nworld, 1)), dtype=float))
+    wp.copy(d.act, wp.array(np.tile(np.full(mjm.na, 0.995, dtype=np.float32), (nworld, 1)), dtype=float))
     for _ in range(nsteps):
       mjw.step(m, d)
     obs = {k: getattr(d, k).numpy().copy() for k in OBS if k != "nacon"}
+    wid = d.contact.worldid.numpy()[: int(d.nacon.numpy()[0])]
+    obs["contacts_per_world"] = np.array([[int((wid == w).sum())] for w in range(nworld)])  # detected contacts, active or not (gap widens detection only)
     # constraint rows as sorted multisets per world: parameters that only shape rows which happen to carry no force are still observed
     ne = d.nefc.numpy()
     for f in ("D", "aref", "pos", "frictionloss"):
@@ -118,7 +133,11 @@ def _field_chunk(args):
       continue
     for nworld, size in pairs:
       # per-world rows: distinct perturbations of the model's own values
-      rows = np.concatenate([a0[:1] * (1.0 + 0.15 * (i + 1)) + (0.004 * (i + 1) if name.endswith(("margin", "gap", "armature", "frictionloss")) else 0.0) for i in range(size)], axis=0).astype(a0.dtype)
+      # element-wise different factors (a uniform factor cannot be seen by ratios such as solmix); entries that are zero in the model move additively for position-like fields
+      u = np.random.default_rng([seed % (1 << 30), len(name)] + [ord(ch) for ch in name]).uniform(0.6, 1.4, size=a0[:1].shape)
+      addz = 0.01 if name in ("geom_pos", "jnt_pos", "site_pos", "qpos0", "body_ipos", "cam_pos", "tendon_range", "actuator_ctrlrange", "actuator_forcerange", "actuator_actrange") else 0.0
+      rows = np.concatenate([a0[:1] * (1.0 + 0.15 * (i + 1) * u) + np.where(np.abs(a0[:1]) < 1e-12, addz * (i + 1) * u, 0.0)
+                             + (0.004 * (i + 1) if name.endswith(("margin", "armature", "frictionloss")) else 0.0) for i in range(size)], axis=0).astype(a0.dtype)
       mb = mjw.put_model(mjm)
       _set(mb, cont, name, wp.array(rows, dtype=arr.dtype))
       try:
@@ -191,6 +210,6 @@ META = {
   "text": "Batch.tla defines how a batched field is read (row = world mod Size) and TLC enumerates the (nworld, Size) combinations; the set of "
           "batchable fields is extracted from the type annotations at run time, and for each float field a Model carrying distinct per-world rows "
           "is simulated and every world compared with an unbatched Model holding that world's row.",
-  "note": "one rich scene; fields that have no effect on it are reported as unobserved in the evidence rather than claimed",
+  "note": "one rich scene (81 of 95 float fields observable; the rest - broadphase bounds, solver tolerances, adhesion, crank length - are listed as unobserved in the evidence rather than claimed)",
   "technique": "TLA+ indexing spec (Batch.tla) enumerated by TLC + spec->code replay over every batchable field discovered from type annotations",
 }
